@@ -290,6 +290,39 @@ ReDefProg(sh, w, where) ==
                              PrintS(<<CallE("f", <<NatLit(3)>>)>>), PrintS(<<CallE("f", <<NatLit(7)>>)>>)>>
     [] where = "strings" -> <<Def(<<"x", "y">>, <<StrL("one"), StrL("two")>>)>> \o (IF sh \in {"expr", "expr-rev"} THEN <<Def(<<"x", "n">>, <<Bin("+", Var("x"), StrL("!")), Var("x")>>), PrintS(<<Var("x"), Var("n")>>)>> ELSE ReDefStmts(sh, IF w = "sum" THEN "bare" ELSE w))
 ReDefCases == {CaseOf("C02/redef/" \o sh \o "/" \o w \o "/" \o where, ReDefProg(sh, w, where)) : sh \in ReDefShapes, w \in ReDefWraps, where \in {"top", "params", "locals", "strings"}}
-All == ReDefCases \cup ArgValCases \cup BlockDefCases \cup RetFormCases \cup LoopCallCases \cup RoleCases \cup ArityCases \cup GlobalCases \cup SwapCases \cup NestCases \cup MultiCallCases
+\* ---- SLICE results next to other calls (round 15, type-specific: a slice result was handed on as the return register itself, and the next call overwrote it):
+\* every shape in which a call delivering a slice is followed by another call before the slice is used - as arguments, as values of one definition / assignment /
+\* return, inside expressions - for int and string elements; the scalar counterpart of each shape is in RetFormCases
+SRDefs(ty) ==
+  LET E(k) == IF ty = "int" THEN NatLit(k) ELSE StrL("s" \o ToString(k)) T == "[]" \o ty IN
+  <<Func("short", <<>>, <<T>>, <<PrintS(<<StrL("short")>>), RetS(<<SliceLit(ty, <<E(1), E(2)>>)>>)>>),
+    Func("long", <<>>, <<T>>, <<PrintS(<<StrL("long")>>), RetS(<<SliceLit(ty, <<E(5), E(6), E(7)>>)>>)>>),
+    Func("zero", <<>>, <<"int">>, <<PrintS(<<StrL("zero")>>), RetS(<<NatLit(0)>>)>>),
+    Func("word", <<>>, <<"string">>, <<RetS(<<StrL("w")>>)>>),
+    Func("first", <<Param("xs", T), Param("i", "int")>>, <<ty>>, <<RetS(<<IndexE(Var("xs"), Var("i"))>>)>>),
+    Func("lens", <<Param("xs", T), Param("ys", T)>>, <<"int">>, <<RetS(<<Bin("+", Bin("*", LenE(Var("xs")), NatLit(10)), LenE(Var("ys")))>>)>>),
+    Func("tail", <<Param("i", "int"), Param("xs", T)>>, <<ty>>, <<RetS(<<IndexE(Var("xs"), Bin("-", Bin("-", LenE(Var("xs")), NatLit(1)), Var("i")))>>)>>),
+    Func("both", <<>>, <<T, T>>, <<RetS(<<CallE("short", <<>>), CallE("long", <<>>)>>)>>),
+    Func("mixed", <<>>, <<T, "int", "string">>, <<RetS(<<CallE("long", <<>>), CallE("zero", <<>>), CallE("word", <<>>)>>)>>),
+    Func("id", <<Param("xs", T)>>, <<T>>, <<RetS(<<Var("xs")>>)>>)>>
+SRShapes == {"arg-then-call", "two-slice-args", "call-then-arg", "def2", "asg2", "ret2", "ret3", "lens-sum", "index-by-call", "nested-id", "def-then-use", "stmt-args"}
+SRUse(sh, ty) ==
+  LET T == "[]" \o ty IN
+  CASE sh = "arg-then-call" -> <<Print1(CallE("first", <<CallE("short", <<>>), CallE("zero", <<>>)>>))>>
+    [] sh = "two-slice-args" -> <<Print1(CallE("lens", <<CallE("short", <<>>), CallE("long", <<>>)>>)), Print1(CallE("lens", <<CallE("long", <<>>), CallE("short", <<>>)>>))>>
+    [] sh = "call-then-arg" -> <<Print1(CallE("tail", <<CallE("zero", <<>>), CallE("long", <<>>)>>))>>
+    [] sh = "def2" -> <<Def(<<"a", "b">>, <<CallE("short", <<>>), CallE("long", <<>>)>>), PrintS(<<LenE(Var("a")), LenE(Var("b")), IndexE(Var("a"), NatLit(1)), IndexE(Var("b"), NatLit(2))>>)>>
+    [] sh = "asg2" -> <<VarDef(<<"a">>, T, <<>>), VarDef(<<"b">>, T, <<>>), Asg(<<"a", "b">>, <<CallE("long", <<>>), CallE("short", <<>>)>>), PrintS(<<LenE(Var("a")), LenE(Var("b"))>>)>>
+    [] sh = "ret2" -> <<Def(<<"a", "b">>, <<CallE("both", <<>>)>>), PrintS(<<LenE(Var("a")), LenE(Var("b")), IndexE(Var("a"), NatLit(0)), IndexE(Var("b"), NatLit(0))>>)>>
+    [] sh = "ret3" -> <<Def(<<"a", "n", "w">>, <<CallE("mixed", <<>>)>>), PrintS(<<LenE(Var("a")), Var("n"), Var("w"), IndexE(Var("a"), NatLit(2))>>)>>
+    [] sh = "lens-sum" -> <<Print1(Bin("+", Bin("*", LenE(CallE("short", <<>>)), NatLit(10)), LenE(CallE("long", <<>>))))>>
+    [] sh = "index-by-call" -> <<Def1("a", CallE("long", <<>>)), Print1(IndexE(Var("a"), CallE("zero", <<>>))), Print1(CallE("first", <<CallE("id", <<CallE("long", <<>>)>>), CallE("zero", <<>>)>>))>>
+    [] sh = "nested-id" -> <<Print1(CallE("lens", <<CallE("id", <<CallE("short", <<>>)>>), CallE("id", <<CallE("long", <<>>)>>)>>))>>
+    [] sh = "def-then-use" -> <<Def1("a", CallE("short", <<>>)), Def1("b", CallE("long", <<>>)), SetIdx("a", NatLit(0), IndexE(Var("b"), NatLit(2))), PrintS(<<LenE(Var("a")), LenE(Var("b")), IndexE(Var("a"), NatLit(0))>>)>>
+    [] sh = "stmt-args" -> <<Func("show", <<Param("xs", T), Param("n", "int"), Param("ys", T)>>, <<>>, <<PrintS(<<LenE(Var("xs")), Var("n"), LenE(Var("ys"))>>)>>), ExprS(CallE("show", <<CallE("short", <<>>), CallE("zero", <<>>), CallE("long", <<>>)>>))>>
+SliceRetCases == {CaseOf("C02/sliceret/" \o sh \o "/" \o ty \o "/" \o w, SRDefs(ty) \o (IF w = "top" THEN SRUse(sh, ty) ELSE <<Func("run", <<>>, <<>>, SRUse(sh, ty)), ExprS(CallE("run", <<>>)), ExprS(CallE("run", <<>>))>>))
+                  : sh \in SRShapes \ {"stmt-args"}, ty \in {"int", "string"}, w \in {"top", "func"}}
+                 \cup {CaseOf("C02/sliceret/stmt-args/" \o ty \o "/top", SRDefs(ty) \o SRUse("stmt-args", ty)) : ty \in {"int", "string"}}
+All == SliceRetCases \cup ReDefCases \cup ArgValCases \cup BlockDefCases \cup RetFormCases \cup LoopCallCases \cup RoleCases \cup ArityCases \cup GlobalCases \cup SwapCases \cup NestCases \cup MultiCallCases
 ASSUME ndJsonSerialize("fam.ndjson", SetToSeq(All))
 =============================================================================
